@@ -81,10 +81,12 @@ type ClientOp struct {
 
 // PolicySpec selects how the scheduler picks among parked operations.
 type PolicySpec struct {
-	Kind   string  `json:"kind"`             // random | first | last | starve
+	Kind   string  `json:"kind"`             // random | first | last | starve | prio
 	P      float64 `json:"p,omitempty"`      // probability of a random pick for first/last
 	Starve string  `json:"starve,omitempty"` // label substring starved by "starve"
 	DelayP float64 `json:"delayp,omitempty"` // probability that a released seam op is delayed first
+	// Changes: number of priority change points of the "prio" policy (see World.prioPick).
+	Changes int `json:"changes,omitempty"`
 	// ReplyP: probability that the reply of a storage Read is delivered late (the
 	// data is read at one instant, the caller gets it 1 s .. 1000 s later).
 	ReplyP float64 `json:"replyp,omitempty"`
